@@ -494,4 +494,82 @@ theorem clean_done_closed (G : UCFG U) (fuel : Nat) (st : CleanSt U)
   · rw [hT] at h1; cases h1
   · exact Or.inr h1
 
+
+/-! ### `clean()` does not add derivations: numbers of derivations can only go down -/
+
+theorem length_flatMap_const {α β γ : Type} (l : List α) (m : List β) (c : α → β → γ) :
+    (l.flatMap (fun a => m.map (c a))).length = l.length * m.length := by
+  induction l with
+  | nil => simp
+  | cons x xs ih => simp [ih, Nat.add_mul, Nat.add_comm]
+
+theorem sum_le_sum {α : Type} (l : List α) (g g' : α → Nat) (h : ∀ x ∈ l, g x ≤ g' x) :
+    (l.map g).sum ≤ (l.map g').sum := by
+  induction l with
+  | nil => simp
+  | cons x xs ih =>
+    simp only [List.map_cons, List.sum_cons]
+    have := h x (by simp)
+    have := ih (fun y hy => h y (by simp [hy]))
+    omega
+
+theorem length_flatMap_map' {α β γ : Type} (l : List α) (g : α → List β) (c : α → β → γ) :
+    (l.flatMap (fun a => (g a).map (c a))).length = (l.map (fun a => (g a).length)).sum := by
+  induction l with
+  | nil => rfl
+  | cons x xs ih => simp [ih]
+
+theorem derivs_length_le (G : UCFG U) (reached : List (UNT U)) :
+    ∀ (t : Prog) (nt : UNT U), (derivs (restrict G reached) t nt).length ≤ (derivs G t nt).length := by
+  intro t
+  induction t using Tree.rec (motive_2 := fun ks => ∀ args,
+      (derivsList (restrict G reached) ks args).length ≤ (derivsList G ks args).length) with
+  | node f kids ih =>
+    intro nt
+    rw [derivs, derivs, alts_restrict]
+    by_cases hr : nt ∈ reached
+    · rw [if_pos hr]
+      cases G.alts? nt f with
+      | none => simp
+      | some cands =>
+        simp only
+        rw [length_flatMap_map', length_flatMap_map']
+        exact sum_le_sum _ _ _ (fun args _ => ih args)
+    · rw [if_neg hr]
+      simp
+  | nil =>
+    rename_i args
+    cases args <;> simp [derivsList]
+  | cons k ks ihk ihks =>
+    rename_i args
+    cases args with
+    | nil => simp [derivsList]
+    | cons a as =>
+      rw [derivsList, derivsList, length_flatMap_const, length_flatMap_const]
+      exact Nat.mul_le_mul (ihk a) (ihks as)
+
+/-- the number of (start symbol, derivation) pairs does not grow -/
+theorem clean_allDerivs_le (G : UCFG U) (fuel : Nat) (Gc : UCFG U) (h : clean G fuel = some Gc)
+    (t : Prog) : (allDerivs Gc t).length ≤ (allDerivs G t).length := by
+  obtain ⟨st, _, _, _, hrules, hstarts⟩ := clean_eq G fuel Gc h
+  have hder := derivs_congr Gc (restrict G st.reached) hrules
+  unfold allDerivs
+  rw [length_flatMap_map', length_flatMap_map', hstarts]
+  have h1 : ((G.starts.filter (startKept (restrict G st.reached) st.done)).map
+      (fun s => (derivs Gc t s).length)).sum ≤ (G.starts.map (fun s => (derivs Gc t s).length)).sum := by
+    induction G.starts with
+    | nil => simp
+    | cons x xs ih =>
+      by_cases hp : startKept (restrict G st.reached) st.done x = true
+      · rw [List.filter_cons_of_pos hp]
+        simp only [List.map_cons, List.sum_cons]
+        omega
+      · rw [List.filter_cons_of_neg hp]
+        simp only [List.map_cons, List.sum_cons]
+        omega
+  refine Nat.le_trans h1 (sum_le_sum _ _ _ ?_)
+  intro s _
+  rw [hder]
+  exact derivs_length_le G st.reached t s
+
 end PS.U.CL
